@@ -127,12 +127,18 @@ def proof_status(pid):
         res["log"] = "no property file"
         return res
     src = open(vfile).read()
+    extra = os.path.join(COQ, "Properties", pid + "b.v")     # companion file (kernel-text refinement theorems)
+    if os.path.exists(extra):
+        src += "\n" + open(extra).read()
     names = re.findall(r"^\s*(?:Theorem|Corollary)\s+([A-Za-z0-9_']+)", src, re.M)
     res["theorems"] = names
     res["obligations"] = len(names)
     bad = re.findall(r"\b(Admitted|admit|Axiom|Parameter|Conjecture|Abort)\b", src)
     with Lock("build"):
         rc, out = sh(f"timeout 900 coqc -Q . Verif Properties/{pid}.v", cwd=COQ, timeout=1000)
+        if rc == 0 and os.path.exists(extra):
+            rc, out2 = sh(f"timeout 900 coqc -Q . Verif Properties/{pid}b.v", cwd=COQ, timeout=1000)
+            out += out2
     res["log"] = out[-3000:] if rc != 0 else ""
     if rc == 0 and not bad:
         res["discharged"] = len(names)
